@@ -224,6 +224,21 @@ REG['C09'] = dict(
     'schedule, fired faults, teeth classes, worm angles, roles); non-trivial '
     '= at least one force sample or flag compared')
 
+REG['C04'] = dict(
+    oracle='c04', profiles=[('conv', 1, None)],
+    quick=1500, thorough=40000,
+    vacuity=['families', 'runs', 'ratios', 'split_runs', 'load_above_stall',
+             'negative_duty'],
+    thorough_cfg={'fine': True},
+    rule='non-self-locking chains with constant load and constant duty cycle; '
+    'for each a family of runs with k*dt in {0.2, 0.1, 0.05, 0.025} '
+    '(thorough: down to 0.00625) over 3..6 time constants, optionally split '
+    'into continuation segments, compared at every instant with the closed '
+    'form of the linear drive; distinct = (chain kinds, horizon, split, duty '
+    'via rule, current data, duty sign); non-trivial = a complete family was '
+    'judged',
+    stubs=['constant external load function', 'RecordingRule wrapper (when the duty is held by ConstantPWM)'])
+
 NOT_APPLICABLE = [
     {'property_id': 'C05',
      'reason': 'stateless function of (value, from-unit, to-unit): no schedule, clock, fault, I/O or history for a simulator to act on; its quantifier is decided by exhaustive enumeration of unit pairs, a different technique (DESIGN.md section 6)'},
